@@ -155,7 +155,7 @@ for rdir, title, intro in ROUNDS:
                                              str(m.get("trigger", "")).replace("|", "/")[:300],
                                              sr.get("result", "not yet run").replace("|", "/")))
     out.append("")
-p3 = os.path.join(V, "seeded2", "seedall_last_run.txt")
+p3 = os.path.join(V, "seeded_runs", "seedall_last_run.txt")
 if os.path.exists(p3):
     lines = [l for l in open(p3).read().split("\n") if l.strip()]
     caught = sum(1 for l in lines if " rc=1 " in l)
@@ -163,7 +163,7 @@ if os.path.exists(p3):
     out.append("`tools/seedall.sh` re-applies every kept patch of all rounds to a scratch worktree of the current "
                "`/repo` HEAD (i.e. on top of all `fix:` commits), builds the machinery from it and runs the property's "
                "quick tier: **%d of %d seeded changes are reported** (exit 1 with VIOLATION lines) by the checks as "
-               "committed; the log of that run is `seeded2/seedall_last_run.txt`.\n" % (caught, len(lines)))
+               "committed; the log of that run is `seeded_runs/seedall_last_run.txt`.\n" % (caught, len(lines)))
 out.append(open(os.path.join(V, "tools", "design_tail.md")).read())
 open(os.path.join(V, "DESIGN.md"), "w").write("\n".join(out))
 print("DESIGN.md written: %d lines" % len("\n".join(out).split("\n")))
